@@ -1128,7 +1128,7 @@ VARIANTS = [
       "\n            size_port = self.get_size_port()\n            size_port.put(await self._persist_token(token=Token(len(token.value), tag=token.tag, recoverable=True), port=size_port, input_token_ids=get_entity_ids([token])))", "R3"),
     V("_scatter returns early on an empty list, before the size token (seeded C01-3)", SFILE, _S,
       "        output_port = self.get_output_port()\n        for i, t in enumerate(token.value):",
-      "        if len(token.value) == 0:\n            return\n        output_port = self.get_output_port()\n        for i, t in enumerate(token.value):", "R3", control=True),
+      "        if len(token.value) == 0:\n            return\n        output_port = self.get_output_port()\n        for i, t in enumerate(token.value):", "R3"),
     V("_scatter emits the size token only for non-empty lists", SFILE, _S,
       "        size_port = self.get_size_port()\n        size_port.put(" + _SIZE_PUT + ")",
       "        if token.value:\n            size_port = self.get_size_port()\n            size_port.put(" + _SIZE_PUT + ")", "R3"),
